@@ -995,7 +995,11 @@ def check_mask_regroup(prog, rep, f):
         names = {x.id for x in ast.walk(c) if isinstance(x, ast.Name)}
         if ("stix" in names or "spix" in names) and len(c.ops) == 1:
             rel.append(c)
-    if not rel:
+    # the recount may also be written without comparisons (numpy.add.reduceat(<mask>, starts), bincount, cumsum differences ...): what matters is WHICH mask feeds the
+    # statements that produce the group lengths
+    len_stores = [st for st in walk_no_nested(f.node) if isinstance(st, ast.Assign) and any("chrgrp_len" in dump(t) or "grp_len" in dump(t) for t in st.targets)
+                  and isinstance(st.value, ast.Call)]
+    if not rel and not len_stores:
         return
     # the retained-index vector must come from the mask the fields were subset with
     applied = set()
@@ -1010,6 +1014,12 @@ def check_mask_regroup(prog, rep, f):
     for n in walk_no_nested(f.node):
         if isinstance(n, ast.Call) and isinstance(n.func, ast.Attribute) and n.func.attr == "flatnonzero" and n.args:
             counted.add(dump(n.args[0]))
+    for st in len_stores:
+        if dump(st.value.func) in ("numpy.copy", "copy.copy"):
+            continue
+        for x in ast.walk(st.value):
+            if (isinstance(x, ast.Name) and x.id in applied) or (isinstance(x, ast.Attribute) and x.attr in ("vrnt_mask", "mask", "_vrnt_mask")):
+                counted.add(dump(x))
     if len(applied) == 1 and counted and counted != applied:
         # the recount may name the mask by the expression the applied local was bound from: the same only if that local is never rebound
         a_ = sorted(applied)[0]
